@@ -517,6 +517,42 @@ def step (line : String) : String :=
           let (bad, seen) := pullFuzz n.toNat (seed.toNat * 7919 + 12345) 0 0
           if seen == 0 then answer "nothing-examined" false else answer s!"mismatches={bad}" (bad == 0)
         | _, _ => "bad-op"
+      else if op == "grow" then
+        -- a partition that is being written to: every round through the world model's `fetchSnap`
+        match fieldInt ws "o", (field ws "snaps").bind (fun s => (s.splitOn ",").mapM (·.toNat?)),
+              (field ws "budgets").bind (fun s => (s.splitOn ",").mapM (·.toNat?)), (field ws "L").bind parseLayout with
+        | some o, some snaps, some budgets, some items =>
+          let rec go (rounds : List (Nat × Nat)) (st : RR) (acc : List String) : List String :=
+            match rounds with
+            | [] => acc
+            | (m, b) :: rest =>
+              let hwm : Int := match (items.take m).getLast? with | some it => it.last + 1 | none => 0
+              match worldEvent items st (.fetchSnap m b hwm false) with
+              | .data d off' oc =>
+                let acc := acc ++ [s!"{showDelivered d}@{off'}@{oc.show}"]
+                if oc == .eof || oc == .timedOut then
+                  go rest { rstep {} st (.data d off' oc) with slept := true } acc
+                else acc
+              | _ => acc
+          let model := "r=" ++ ";".intercalate
+            (go (snaps.zip budgets) { phase := .reading, offset := o, connOff := o, slept := true, start := some o } [])
+          answer model (model == impl)
+        | _, _, _, _ => "bad-op"
+      else if op == "readvs" then
+        -- Batch.Read and Batch.ReadMessage hand out the values of the same messages
+        let iw := words impl
+        match field iw "msg", field iw "read" with
+        | some a, some b => if a == b then answer impl true else answer s!"msg={a} read={a}" false
+        | _, _ => "bad-op"
+      else if op == "earlyclose" then
+        -- Batch.Close before the end of the batch: Close returned nil ⇒ the Conn is at a response boundary (the next call works)
+        let iw := words impl
+        match field iw "first", field iw "close", field iw "next" with
+        | some f, some c, some n =>
+          if f != "nil" then answer "first=nil" false
+          else if c == "nil" && n != "ok" then answer s!"first=nil close=<error> (or next=ok): Close returned nil but the next call on the Conn gave {n}" false
+          else answer impl true
+        | _, _, _ => "bad-op"
       else if op == "ftrace" then
         match (field ws "L").bind parseLayout, fieldInt ws "first", fieldInt ws "hwm",
               (field ws "T").map (fun t => (t.splitOn ";").map parseFTEv) with
